@@ -148,6 +148,7 @@ type Machine struct {
 	background    *CtxObj
 	race          raceState
 	lastIOLimit   *Term
+	lastIOWraps   []*readerWrap
 	tickIntervals []*Term
 	guards        map[*MapObj]*MutexObj
 	guardViol     int
